@@ -113,7 +113,7 @@ theorem ARInv.pollLoop {C} {f : RSide → RSide × Res Bytes} (hf : SyncCall C f
 theorem ARInv.poll {C a} {f : RSide → RSide × Res Bytes} (h : ARInv C a) (hf : SyncCall C f) (e : Entry) (t : Nat) :
     ARInv C (a.poll e t f).1 := by
   unfold ARead.poll
-  exact ARInv.pollLoop hf e loopFuel ⟨h.inv, h.fut_ok⟩
+  exact ARInv.pollLoop hf e _ ⟨h.inv, h.fut_ok⟩
 
 theorem ARInv.call {C a} {f : RSide → RSide × Res Bytes} (h : ARInv C a) (hf : SyncCall C f) (e : Entry) (t : Nat) :
     ARInv C (a.call e t f).1 := by
@@ -201,7 +201,7 @@ theorem ARead.call_frame {f : RSide → RSide × Res Bytes} (g : Res Bytes → B
     (a.call e t f).1.r.base = a.r.base ∧ (a.call e t f).1.r.max = a.r.max := by
   unfold ARead.call ARead.poll
   simp only
-  have := ARead.pollLoop_frame g hg hgp hf e loopFuel
+  have := ARead.pollLoop_frame g hg hgp hf e (loopFuel + a.r.clearObs.script.length)
     { a with r := a.r.clearObs, slots := a.slots.set e (some t) }
   simpa [RSide.clearObs] using this
 
@@ -384,7 +384,7 @@ theorem AWrite.pollWrite_ok (a : AWrite) (t : Nat) (src : Bytes) :
     exact h1.acc
   | none =>
     simp only
-    have h2 := AWrite.writeLoop_ok src loopFuel a'
+    have h2 := AWrite.writeLoop_ok src (loopFuel + a'.w.script.length) a'
     refine ⟨fun h => h2.1 (h1.inv h), ?_, ?_, ?_⟩
     · rw [h2.2.1, h1.acc]
     · rw [h2.2.2.1, h1.max]
@@ -709,7 +709,7 @@ theorem AWrite.pollWrite_clean {a : AWrite} (t : Nat) (src : Bytes) (hc : Clean 
   cases o with
   | some o => exact h1.1
   | none =>
-    refine AWrite.writeLoop_clean src loopFuel ?_ hi1
+    refine AWrite.writeLoop_clean src _ ?_ hi1
     intro t' ht'
     rw [h1.2] at ht'
     exact hn t' ht'
@@ -1064,8 +1064,9 @@ theorem ARead.call_wake {f : RSide → RSide × Res Bytes} (hf : ∀ r, robs (f 
   simp only
   have hs : Settled a.r.parked (robs ({ a with r := a.r.clearObs, slots := a.slots.set e (some t) } : ARead).r) :=
     Settled.untouched
-  have hl := pollLoop_obs hf e loopFuel hs
-  rcases hq : ({ a with r := a.r.clearObs, slots := a.slots.set e (some t) } : ARead).pollLoop e f loopFuel with ⟨a', o⟩
+  have hl := pollLoop_obs hf e (loopFuel + a.r.clearObs.script.length) hs
+  rcases hq : ({ a with r := a.r.clearObs, slots := a.slots.set e (some t) } : ARead).pollLoop e f
+      (loopFuel + a.r.clearObs.script.length) with ⟨a', o⟩
   rw [hq] at hl
   simp only at hl
   have := wake_step (slots' := a'.slots) (o' := robs a'.r) (e := e) (t := t) (out := o) h hl.1
@@ -1322,7 +1323,7 @@ theorem pollWrite_obs {P0} {a : AWrite} (t : Nat) (src : Bytes) (h : Settled P0 
   | some o => exact hg.1 o rfl
   | none =>
     obtain ⟨hs, hsl⟩ := hg.2 rfl
-    exact (writeLoopA_obs src loopFuel hs).of_slots hsl
+    exact (writeLoopA_obs src _ hs).of_slots hsl
 
 theorem pollFlush_obs {P0} {a : AWrite} (t : Nat) (h : Settled P0 (wobs a.w)) :
     WSpec P0 .b { a with slots := a.slots.set .b (some t) } (a.pollFlush t) := by
@@ -1698,7 +1699,7 @@ theorem pollWrite_safe {a : AWrite} (t : Nat) (src : Bytes) (h : WSafe a) (hn : 
   cases o with
   | some o => exact ⟨fun ho => hg.1 (congrArg some ho), hg.2.1⟩
   | none =>
-    refine writeLoopA_safe src loopFuel hg.2.1 (hg.2.2.2 rfl) ?_
+    refine writeLoopA_safe src _ hg.2.1 (hg.2.2.2 rfl) ?_
     intro t' ht'
     rw [hg.2.2.1] at ht'
     exact hn t' ht'
@@ -1884,5 +1885,239 @@ theorem WSafe.run : ∀ (ops : List Op) {s : State}, WSafe s.aw → GuardedRun s
     have h1 := h.step op hg.1
     have h2 := WSafe.run ops h1.2 hg.2
     exact ⟨⟨h1.1, h2.1⟩, h2.2⟩
+
+
+/-! ### termination of the retry loops (with a measure: at most two rounds on the read half, three on
+the write half), under the guards "no earlier panic on the half" (read) and `0 < max` (write) -/
+
+/-- the synchronous read calls succeed on such a buffer: in place, and holding data or at EOF -/
+def RReady (r : RSide) : Prop := r.buf.lent = false ∧ (r.buf.avail ≠ [] ∨ r.eof = true)
+
+theorem fillPoll_ok_ready {C r} (h : RInv C r) (snap : List Nat) (n : Nat)
+    (ho : (r.fillPoll snap).2 = some (.ok n)) : RReady (r.fillPoll snap).1 := by
+  have hp := h.pos_le
+  unfold RSide.fillPoll at ho ⊢
+  split at ho <;> simp only [reduceCtorEq, Option.some.injEq, Res.ok.injEq] at ho
+  · rename_i bs rest hs
+    simp only [hs]
+    refine ⟨by simp, ?_⟩
+    by_cases h0 : min bs.length (r.wake.buf.cap - r.wake.buf.data.length) = 0
+    · right; simp [h0]
+    · left
+      simp only [Buf.avail, RSide.wake_buf, ne_eq, List.drop_eq_nil_iff, List.length_append, List.length_take,
+        Nat.not_le]
+      simp only [RSide.wake_buf] at h0
+      omega
+  · rename_i rest hs
+    simp only [hs]
+    exact ⟨by simp, Or.inr (by simp)⟩
+  · rename_i hs
+    simp only [hs]
+    exact ⟨by simp, Or.inr (by simp)⟩
+
+/-- the buffer is lent exactly while the fill future is in flight (breaks only by a panic) -/
+def NoLossR (a : ARead) : Prop := a.r.buf.lent = a.fut
+
+theorem pollImpl_term {C a} (h : ARInv C a) (hn : NoLossR a) :
+    (∀ n, a.pollImpl.2 = some (.ok n) → RReady a.pollImpl.1.r) ∧
+    (a.pollImpl.2 ≠ some .panic → NoLossR a.pollImpl.1) := by
+  unfold NoLossR at hn ⊢
+  unfold ARead.pollImpl
+  simp only
+  by_cases hf : a.fut = true
+  · simp only [hf, if_true]
+    obtain ⟨he, hl⟩ := h.fut_ok hf
+    have h1 := fillPoll_ok_ready h.inv a.slots.tasks
+    have h2 := RSide.fillPoll_nopanic a.r a.slots.tasks
+    have h3 := @RSide.fillPoll_pending a.r
+    rcases hq : a.r.fillPoll a.slots.tasks with ⟨r', o⟩
+    rw [hq] at h1 h2
+    cases o with
+    | none =>
+      refine ⟨by simp, fun _ => ?_⟩
+      simp only
+      rw [(h3 hq).2, hf]; exact hl
+    | some res => exact ⟨fun n hn' => h1 n hn', fun _ => by simpa using h2.2 (by simp)⟩
+  · have hf' : a.fut = false := by simpa using hf
+    have hl : a.r.buf.lent = false := by rw [hn, hf']
+    simp only [hf', Bool.false_eq_true, if_false]
+    unfold RSide.fillStart
+    by_cases he : a.r.eof = true
+    · simp only [he, if_true]
+      exact ⟨fun _ _ => ⟨hl, Or.inr he⟩, fun _ => by simp [hl, hf']⟩
+    · simp only [he, hl, Bool.false_eq_true, if_false]
+      by_cases hm : a.r.max ≤ (a.r.buf.compactTo a.r.base a.r.max).data.length
+      · simp only [hm, if_true]
+        exact ⟨by simp, fun _ => by simp [Buf.compactTo_lent, hl, hf']⟩
+      · simp only [hm, if_false]
+        have hs := h.inv.fillStart
+        have hst : a.r.fillStart = (_, none) := by
+          unfold RSide.fillStart
+          simp only [he, hl, Bool.false_eq_true, if_false, hm]
+        rw [hst] at hs
+        have h1 := fillPoll_ok_ready hs a.slots.tasks
+        have h2 := RSide.fillPoll_nopanic
+          ({ a.r with buf := { a.r.buf.compactTo a.r.base a.r.max with
+              cap := growCap (a.r.buf.compactTo a.r.base a.r.max).data.length (a.r.buf.compactTo a.r.base a.r.max).cap a.r.base,
+              lent := true } } : RSide) a.slots.tasks
+        have h3 := @RSide.fillPoll_pending
+          ({ a.r with buf := { a.r.buf.compactTo a.r.base a.r.max with
+              cap := growCap (a.r.buf.compactTo a.r.base a.r.max).data.length (a.r.buf.compactTo a.r.base a.r.max).cap a.r.base,
+              lent := true } } : RSide)
+        rcases hq : ({ a.r with buf := { a.r.buf.compactTo a.r.base a.r.max with
+              cap := growCap (a.r.buf.compactTo a.r.base a.r.max).data.length (a.r.buf.compactTo a.r.base a.r.max).cap a.r.base,
+              lent := true } } : RSide).fillPoll a.slots.tasks with ⟨r', o⟩
+        rw [hq] at h1 h2
+        cases o with
+        | none =>
+          refine ⟨by simp, fun _ => ?_⟩
+          simp only
+          rw [(h3 hq).2]
+        | some res => exact ⟨fun n hn' => h1 n hn', fun _ => by simpa using h2.2 (by simp)⟩
+
+/-- what termination needs to know about the wrapped synchronous call -/
+structure SyncCallT (C : Bytes) (f : RSide → RSide × Res Bytes) : Prop extends SyncCall C f where
+  ready : ∀ r, RInv C r → RReady r → (f r).2 ≠ .err .wb
+  wb_same : ∀ r, (f r).2 = .err .wb → (f r).1 = r
+  keeps : ∀ r, RInv C r → (f r).2 ≠ .panic → (f r).1.buf.lent = r.buf.lent
+
+theorem SyncCallT.read (C : Bytes) (n : Nat) : SyncCallT C (fun r => r.read n) where
+  toSyncCall := SyncCall.read C n
+  ready r h hr := by
+    unfold RSide.read RSide.fillBuf
+    simp only [hr.1, Bool.false_eq_true, if_false]
+    have hw : (r.buf.avail.isEmpty && !r.eof) = false := by
+      rcases hr.2 with h1 | h1
+      · have : r.buf.avail.isEmpty = false := by simpa using h1
+        simp [this]
+      · simp [h1]
+    simp only [hw, Bool.false_eq_true, if_false]
+    have := RSide.consume_nopanic h (min r.buf.avail.length n) hr.1 (Nat.min_le_left _ _)
+    intro hc
+    have h1 : ¬ r.buf.cap < r.buf.pos + min r.buf.avail.length n := by
+      have := h.pos_le; have := h.len_le; simp only [Buf.avail, List.length_drop]; omega
+    have h2 : ¬ r.buf.data.length < r.buf.pos + min r.buf.avail.length n := by
+      have := h.pos_le; simp only [Buf.avail, List.length_drop]; omega
+    rw [RSide.consume_ok hr.1 h1 h2] at hc
+    simp at hc
+  wb_same r hw := by
+    unfold RSide.read at hw ⊢
+    split at hw
+    · rename_i av hav
+      -- `consume` never answers WouldBlock
+      exfalso
+      by_cases hl : r.buf.lent = true
+      · rw [RSide.consume_lent _ hl] at hw; simp at hw
+      · have hl : r.buf.lent = false := by simpa using hl
+        by_cases h1 : r.buf.cap < r.buf.pos + min av.length n
+        · rw [RSide.consume_panic hl h1] at hw; simp at hw
+        · by_cases h2 : r.buf.data.length < r.buf.pos + min av.length n
+          · rw [RSide.consume_lost hl h1 h2] at hw; simp at hw
+          · rw [RSide.consume_ok hl h1 h2] at hw; simp at hw
+    · rfl
+    · rfl
+  keeps r h hp := by
+    by_cases hl : r.buf.lent = true
+    · have : r.read n = (r, .err .wb) := by simp [RSide.read, RSide.fillBuf, hl]
+      rw [this]
+    · have hl : r.buf.lent = false := by simpa using hl
+      rw [(RSide.read_nopanic h n hl).2, hl]
+
+theorem SyncCallT.fillBuf (C : Bytes) : SyncCallT C (fun r => (r, r.fillBuf)) where
+  toSyncCall := SyncCall.fillBuf C
+  ready r _ hr := by
+    unfold RSide.fillBuf
+    simp only [hr.1, Bool.false_eq_true, if_false]
+    have hw : (r.buf.avail.isEmpty && !r.eof) = false := by
+      rcases hr.2 with h1 | h1
+      · have : r.buf.avail.isEmpty = false := by simpa using h1
+        simp [this]
+      · simp [h1]
+    simp [hw]
+  wb_same r _ := rfl
+  keeps r _ _ := rfl
+
+/-- a ready buffer ends the loop in one round -/
+theorem pollLoop_ready {C} {f : RSide → RSide × Res Bytes} (hf : SyncCallT C f) (e : Entry) (n : Nat) {a : ARead}
+    (h : ARInv C a) (hr : RReady a.r) : (a.pollLoop e f (n + 1)).2 ≠ .hang := by
+  unfold ARead.pollLoop
+  have := hf.ready a.r h.inv hr
+  rcases hq : f a.r with ⟨r', res⟩
+  rw [hq] at this
+  cases res with
+  | ok b => simp
+  | panic => simp
+  | err k => cases k <;> simp_all
+
+/-- **measure**: two rounds suffice — after a round that polled the fill future to `Ok`, the buffer is ready -/
+theorem pollLoop_term {C} {f : RSide → RSide × Res Bytes} (hf : SyncCallT C f) (e : Entry) (n : Nat) {a : ARead}
+    (h : ARInv C a) (hn : NoLossR a) : (a.pollLoop e f (n + 2)).2 ≠ .hang := by
+  unfold ARead.pollLoop
+  have hsame := hf.wb_same a.r
+  rcases hq : f a.r with ⟨r', res⟩
+  rw [hq] at hsame
+  cases res with
+  | ok b => simp
+  | panic => simp
+  | err k =>
+    cases k with
+    | wb =>
+      have hr' : r' = a.r := hsame rfl
+      subst hr'
+      simp only
+      have hp := pollImpl_term h hn
+      have hi := h.pollImpl
+      rcases hq2 : ({ a with r := a.r } : ARead).pollImpl with ⟨a', o⟩
+      have haa : ({ a with r := a.r } : ARead) = a := rfl
+      rw [haa] at hq2
+      rw [hq2] at hp hi
+      cases o with
+      | none => simp
+      | some res2 =>
+        cases res2 with
+        | ok m => exact pollLoop_ready hf e n hi (hp.1 m rfl)
+        | err _ => simp
+        | panic => simp
+    | oom => simp
+    | wz => simp
+    | other => simp
+
+theorem pollLoop_noloss {C} {f : RSide → RSide × Res Bytes} (hf : SyncCallT C f) (e : Entry) :
+    ∀ (fuel : Nat) {a : ARead}, ARInv C a → NoLossR a → (a.pollLoop e f fuel).2 ≠ .panic →
+      NoLossR (a.pollLoop e f fuel).1
+  | 0, a, _, hn, _ => by simpa [ARead.pollLoop] using hn
+  | fuel + 1, a, h, hn, hp => by
+    unfold ARead.pollLoop at hp ⊢
+    have hk := hf.keeps a.r h.inv
+    have hsame := hf.wb_same a.r
+    have hinv := hf.inv a.r h.inv
+    rcases hq : f a.r with ⟨r', res⟩
+    rw [hq] at hk hsame hinv hp
+    unfold NoLossR at hn ⊢
+    cases res with
+    | ok b => simp only; rw [hk (by simp)]; exact hn
+    | panic => simp at hp
+    | err k =>
+      cases k with
+      | wb =>
+        have hr' : r' = a.r := hsame rfl
+        subst hr'
+        simp only at hp ⊢
+        have hpi := pollImpl_term h hn
+        have hi := h.pollImpl
+        rcases hq2 : ({ a with r := a.r } : ARead).pollImpl with ⟨a', o⟩
+        have haa : ({ a with r := a.r } : ARead) = a := rfl
+        rw [haa] at hq2
+        rw [hq2] at hpi hi hp
+        cases o with
+        | none => exact hpi.2 (by simp)
+        | some res2 =>
+          cases res2 with
+          | ok m => exact pollLoop_noloss hf e fuel hi (hpi.2 (by simp)) hp
+          | err _ => exact hpi.2 (by simp)
+          | panic => simp at hp
+      | oom => simp only; rw [hk (by simp)]; exact hn
+      | wz => simp only; rw [hk (by simp)]; exact hn
+      | other => simp only; rw [hk (by simp)]; exact hn
 
 end Compio.PollAdapter
